@@ -416,7 +416,7 @@ func runC04(t *rapid.T) {
 			case "resize":
 				w.Tty.Resize(st.W, st.H)
 				w.T.Resize(st.W, st.H)
-				w.Tty.Faults["resize"]++
+				w.Tty.Faults.Inc("resize")
 				w.Tty.FireResize()
 			case "late":
 				w.Tty.FireLateResize()
@@ -438,7 +438,7 @@ func runC04(t *rapid.T) {
 	for _, pn := range w.Panics() {
 		w.fail("C04/panic", "panic: %s", pn)
 	}
-	hx.St.Record(s, w.Tty.Faults, func() interface{} {
+	hx.St.Record(s, w.Tty.Faults.Map(), func() interface{} {
 		var os []string
 		for _, o := range ops {
 			os = append(os, o.Kind)
